@@ -545,7 +545,17 @@ def install(it):
     it.models[ZstdModel.ZstdCompressor] = lambda it_, *a, **k: _ZstdCompressor(it_)
     import io as _io
 
-    it.models[_io.BufferedReader] = lambda it_, raw, *a, **k: raw  # the abstract files are peekable already
+    def m_buffered_reader(it_, raw, *a, **k):
+        if type(raw).__name__ == "AbsRawFile":
+            # a buffered (peekable) view that starts at the raw file's current position; the raw file is read through it from now on
+            from .files import AbsFile as _AF
+
+            view = _AF(it_, raw.remaining(), name="fp", mode=raw.mode)
+            raw.i = len(raw.segs)
+            return view
+        return raw  # the abstract files are peekable already
+
+    it.models[_io.BufferedReader] = m_buffered_reader
 
     def m_now(it_, tz=None):
         if it_.clock:
